@@ -11,7 +11,7 @@ PROPS = {}
 # broken obligation.
 GROUP_FILES = {"token": ["Token.lean"], "escape": ["Escape.lean"], "quote": ["Quote.lean"], "hashable": ["Hashable.lean"],
                "take": ["Take.lean"], "types": ["Types.lean", "types.list"], "coltypes": ["ColTypes.lean"],
-               "derive": ["ValidIden.lean"], "spell": ["Spell.lean"]}
+               "derive": ["ValidIden.lean"], "spell": ["Spell.lean"], "clauses": ["Clauses.lean"]}
 SOFT_GROUPS = set(GROUP_FILES)
 
 PROPS["C16"] = dict(
@@ -223,9 +223,9 @@ PROPS["C09"] = dict(
 )
 
 PROPS["C08"] = dict(
-    groups=["token", "escape", "quote", "spell"],
+    groups=["token", "escape", "quote", "spell", "clauses"],
     pregen=[("gen-policy", "SeaQ/Gen/Policy.lean")],
-    lean_props=["SeaQ.Props.C08", "SeaQ.Props.C05Stmt", "SeaQ.Props.WhereParse"],
+    lean_props=["SeaQ.Props.C08", "SeaQ.Props.C08Src", "SeaQ.Props.C05Stmt", "SeaQ.Props.WhereParse"],
     lean_obligations=["SeaQ.Lemmas.Balance", "SeaQ.Lemmas.RenderBalance", "SeaQ.Lemmas.StmtPolicy"],
     technique="Lean 4 proofs over the statement rendering model: every statement of the model (all five kinds, any nesting, three dialects) is written with balanced parentheses and every clause of a SELECT is balanced on its own, so clause keywords stand at depth 0 (render_balanced, select_clauses_balanced: mutual structural induction over the 41 render functions); the rendering of a SELECT is the concatenation of a clause list whose tags are a sub-sequence of the grammar's clause sequence (each clause at most once, in grammar order, present iff given) for every statement without a named window, the MySQL UPDATE re-routing (condition once, as JOIN .. ON), dialect-only constructs (DISTINCT ON, DISTINCTROW, RETURNING, locking, enum casts, VALUES ROW); expressions inside statements: for every operator tree of any depth over arbitrary leaves the statement renderer writes exactly the tokens of C05's abstract printer under the parenthesis policy observed from the crate (stmt_prints_as_pratt: the renderer's own decisions equal the observed cells, a finite obligation re-decided by the kernel on every run), hence they re-parse to the tree that was built under each dialect's operator table (stmt_roundtrip_*); the WHERE / HAVING / ON clause of a statement whose condition members are primary expressions re-parses to the AND / OR / NOT tree of the held condition (where_reparses_*: C05 and C06 joined at the statement renderer); the model is tied to the crate by differential runs; that the flat text parses into these clauses is decided by a reference parser of each dialect's statement grammar (precedence tables of C05): the tree of the crate's text must equal the tree of an independent, fully explicit rendering of the same builder calls",
     level_text="Machine-checked (model): balanced parentheses for every statement (given caller-supplied raw text balanced on its own; custom templates included when each chunk is balanced on its own), clause list = rendering, clause order / uniqueness / presence for SELECT, re-routing and dialect exclusivity lemmas, operator trees inside statements re-parse to themselves (C05 carried over to the statement renderer). Validated on generated statements (MySQL, Postgres, SQLite as third leg): parse of inline and parameterised text under the dialect's reference grammar and tree equality with the explicit reference rendering. The grammars are the trusted specification (no MySQL / Postgres engine in the sandbox).",
